@@ -146,7 +146,7 @@ func c08liftFromDialler(w *c08world, v *c08node) func([]byte) ([]byte, error) {
 	return func(nonce []byte) ([]byte, error) {
 		got := make(chan []byte, 4)
 		hon := c08desc{role: "dial", suite: "", tlsv: "13", op: "a", them: "a", ncerts: 1, der: "ok", signedby: "self", time: "ok",
-			uris: "new:a", cn: "new:a", sig: "a/cur/new:a", nonce: "ok", id: "-", via: "key", live: "none"}
+			uris: "new:a", cn: "new:a", sig: "a/cur/new:a", nonce: "ok", id: "-", via: "key", live: "none", decoy: "none"}
 		cfg := &tls.Config{
 			ClientAuth: tls.RequireAnyClientCert,
 			ClientCAs:  c08caPool(nonce),
@@ -258,6 +258,7 @@ func c08handshake(d c08desc, cs *h.Case) (string, string) {
 	}
 	needStale := strings.Contains(d.sig, "/stale/")
 	hs, disp, note := "fail", "-", ""
+	unstable, routerOK := "", false
 
 	if d.role == "dial" {
 		srv, err := c08startServer(w, d, tok)
@@ -293,8 +294,9 @@ func c08handshake(d c08desc, cs *h.Case) (string, string) {
 		// (2) through the router: connect, identity, probe message back
 		_, serr := hn.r.Send(them, &C08Msg{Tok: "out-" + tok})
 		if (serr == nil) != (hs == "ok") {
-			cs.Fail("unstable", fmt.Sprintf("NewTLSConn: %v, Router.Send: %v", err, serr))
+			unstable = fmt.Sprintf("NewTLSConn: %v, Router.Send: %v", err, serr)
 		}
+		routerOK = serr == nil
 		if serr == nil {
 			select {
 			case p := <-ch:
@@ -377,6 +379,18 @@ func c08handshake(d c08desc, cs *h.Case) (string, string) {
 	// ---- the property's own oracle ----
 	claimed, why, own := c08oracle(d)
 	tag := fmt.Sprintf("%s:%s:tls%s", d.role, d.suite, d.tlsv)
+	obsHs := hs
+	if routerOK {
+		hs = "ok" // the router's own dialling path established the link: that counts as well
+	}
+	defer func() {
+		if unstable != "" {
+			// (after the property's own verdicts) the two dialling paths of the honest node
+			// must treat the same peer alike
+			cs.Fail("unstable:"+tag, "the handshake by NewTLSConn and the one made by Router.Send for the same peer differ: "+unstable+" ("+d.line()+")")
+		}
+	}()
+	_ = obsHs
 	switch {
 	case hs == "ok" && claimed == "":
 		cs.Fail("unproven-key-accepted:"+tag+":"+c08row(d), fmt.Sprintf("the honest node completed the handshake although %s (%s)", why, d.line()))
@@ -446,7 +460,7 @@ func c08gen(c *h.Ctx, yield func(*h.Case)) {
 	// the honest description of a peer operated by `op`, claiming its own key
 	honest := func(role, suite, tlsv, op string) c08desc {
 		d := c08desc{role: role, suite: suite, tlsv: tlsv, op: op, them: "-", ncerts: 1, der: "ok", signedby: "self", time: "ok",
-			uris: "new:" + op, cn: "new:" + op, sig: op + "/cur/new:" + op, nonce: "ok", id: op, via: "key", live: "none"}
+			uris: "new:" + op, cn: "new:" + op, sig: op + "/cur/new:" + op, nonce: "ok", id: op, via: "key", live: "none", decoy: "none"}
 		if role == "dial" {
 			d.them, d.id = op, "-"
 		}
@@ -502,6 +516,19 @@ func c08gen(c *h.Ctx, yield func(*h.Case)) {
 			d.op, d.uris, d.cn, d.sig, d.id, d.live = "a", "new:a", "new:a", "a/cur/new:a", "v", "v"
 		}},
 		{"identity-names-connected-third-peer", "accept", func(d *c08desc) { d.id, d.live = "o", "o" }},
+		// a certificate without proof in front of the one that carries it: the router reads the
+		// first certificate's name, the proof is about the second one's
+		{"decoy-names-victim-proof-for-own-key", "accept", func(d *c08desc) {
+			d.op, d.uris, d.cn, d.sig, d.id, d.decoy = "a", "new:a", "new:a", "a/cur/new:a", "v", "new:v"
+		}},
+		{"decoy-names-victim-declares-own", "accept", func(d *c08desc) {
+			d.op, d.uris, d.cn, d.sig, d.id, d.decoy = "a", "new:a", "new:a", "a/cur/new:a", "a", "new:v"
+		}},
+		{"decoy-names-dialled-proof-for-own-key", "dial", func(d *c08desc) {
+			d.op, d.cn, d.sig, d.decoy = "a", "new:a", "a/cur/new:a", "new:v"
+		}},
+		{"decoy-in-front-of-honest", "both", func(d *c08desc) { d.decoy = "new:v" }},
+		{"decoy-only", "both", func(d *c08desc) { d.ncerts, d.decoy = 0, "new:v" }},
 		{"honest-second-connection", "accept", func(d *c08desc) { d.live = "v" }},
 		{"proof-missing-connected-peer", "accept", func(d *c08desc) { d.sig, d.live = "none", "v" }},
 		{"proof-stale-connected-peer", "accept", func(d *c08desc) { d.op, d.sig, d.live = "a", "v/stale/new:v", "v" }},
@@ -583,6 +610,9 @@ func c08gen(c *h.Ctx, yield func(*h.Case)) {
 				d.signedby = "other"
 			case 6:
 				d.ncerts = 2
+				if r.Intn(2) == 0 {
+					d.ncerts, d.decoy = 1, pick("new:v", "new:a", "new:o", "old:v", "junk")
+				}
 			case 7:
 				d.der = pick("bad", "two")
 			case 8:
